@@ -35,7 +35,10 @@ type File struct {
 	HasService        bool
 	// IsOptions marks the file that declares the workspace's custom message options;
 	// HasCustomOptions is set on files whose main message carries both of them.
-	IsOptions        bool
+	IsOptions bool
+	// OptionScope (options file): "" when the options are declared by a file-level extend block,
+	// "OptsCarrier." when the extend block sits inside that message
+	OptionScope      string
 	HasCustomOptions bool
 	// ErrorLine/ErrorColumn are set when a compile error was planted whose position is known by
 	// construction (1-based); PlantKind names the kind of planted error.
@@ -152,6 +155,7 @@ func New(t *tape.Tape, o Options) *Workspace {
 		f := &File{Module: 0, Path: dir + "/opts.proto", Syntax: "proto3", IsOptions: true}
 		f.Package = strings.ReplaceAll(dir, "/", ".")
 		f.Message = f.Package + ".OptsCarrier"
+		f.OptionScope = tape.Pick(t, "ws.optscope", []string{"", "OptsCarrier."})
 		f.Imports = []Import{{Path: "google/protobuf/descriptor.proto", WKT: true, Used: true}}
 		ws.OptionsFile = f
 		order = append(order, f)
@@ -473,6 +477,13 @@ func (ws *Workspace) exports(path string) map[string]bool {
 }
 
 func render(t *tape.Tape, ws *Workspace, f *File, o Options) {
+	if f.IsOptions && f.OptionScope != "" {
+		// the same two options, declared inside a message: no file of the workspace has a top-level extend block
+		f.Content = "syntax = \"proto3\";\n\npackage " + f.Package + ";\n\nimport \"google/protobuf/descriptor.proto\";\n\n" +
+			"message OptsCarrier {\n  string name = 1;\n  extend google.protobuf.MessageOptions {\n" +
+			fmt.Sprintf("    string src_note = %d [retention = RETENTION_SOURCE];\n    string rt_note = %d;\n  }\n}\n", SourceOptionNumber, RuntimeOptionNumber)
+		return
+	}
 	if f.IsOptions {
 		f.Content = "syntax = \"proto3\";\n\npackage " + f.Package + ";\n\nimport \"google/protobuf/descriptor.proto\";\n\n" +
 			"extend google.protobuf.MessageOptions {\n" +
@@ -593,7 +604,7 @@ func render(t *tape.Tape, ws *Workspace, f *File, o Options) {
 		for i, imp := range f.Imports {
 			// (only where the import is used anyway: the options then do not change which imports are unused)
 			if imp.Path == of.Path && credited[i] && t.Draw("ws.useopts", 3) != 0 {
-				w(fmt.Sprintf("  option (%s.src_note) = \"source note of %s\";\n  option (%s.rt_note) = \"runtime note of %s\";\n", of.Package, short, of.Package, short))
+				w(fmt.Sprintf("  option (%s.%ssrc_note) = \"source note of %s\";\n  option (%s.%srt_note) = \"runtime note of %s\";\n", of.Package, of.OptionScope, short, of.Package, of.OptionScope, short))
 				f.HasCustomOptions = true
 			}
 		}
